@@ -156,6 +156,8 @@ def gen_params(draw, max_hosts=12, max_services=5, small=True):
         nsub = 3 + math.ceil((H - math.ceil(H / 40) - math.ceil(H / 41)) / 5)
         p["address_space_bounds"] = (nsub + draw(st.integers(0, 4)),
                                      5 + draw(st.integers(0, 4)))
+        if draw(st.integers(0, 9)) == 0 and H <= 12:
+            p["address_space_bounds"] = (nsub + draw(st.integers(0, 2)), 1000 + draw(st.integers(1, 300)))
     p["seed"] = draw(st.integers(0, 2**31 - 1)) if draw(st.integers(0, 9)) else draw(st.sampled_from([0, 1, 2**31, 2**32 - 1]))
     if draw(st.integers(0, 7)) == 0:
         p["name"] = draw(st.sampled_from(["my scenario", "tiny", "", "s-1"]))
@@ -179,7 +181,7 @@ def gen_params_large(draw):
 def gen_params_many_features(draw):
     """few hosts, but many services / OS / processes (55-90 configuration flags per host)"""
     p = draw(gen_params(max_hosts=8, max_services=3))
-    p["num_services"] = draw(st.integers(25, 45))
+    p["num_services"] = draw(st.integers(25, 45)) if draw(st.booleans()) else draw(st.integers(54, 70))
     p["num_os"] = draw(st.integers(5, 12))
     p["num_processes"] = draw(st.integers(20, 35))
     for k in ("num_exploits", "num_privescs", "address_space_bounds"):
